@@ -4,6 +4,7 @@ import (
 	"bytes"
 	"encoding/json"
 	"fmt"
+	"os"
 	"regexp"
 	"strings"
 	"time"
@@ -59,11 +60,16 @@ func c12Build(id int, raw json.RawMessage) *Job {
 		}
 	}
 	r := scRenderMode(tc.Items, scModeOf(raw, scSeed))
+	return c12JobFor(id, r, &tc)
+}
+
+// c12JobFor asks the four questions at every recorded occurrence of a rendered workspace.
+func c12JobFor(id int, r *scRender, tc *scCase) *Job {
 	pc := &proto.Case{ID: id, Files: r.files(), Init: json.RawMessage(allOnLocal)}
 	for i, f := range r.Files {
 		pc.Steps = append(pc.Steps, openStep(f, r.Text[i]))
 	}
-	d := &c12Data{tc: &tc, r: r}
+	d := &c12Data{tc: tc, r: r}
 	for _, o := range r.Occ {
 		var st [4]int
 		f := r.Files[o.File]
@@ -78,6 +84,15 @@ func c12Build(id int, raw json.RawMessage) *Job {
 		d.step = append(d.step, st)
 	}
 	return &Job{PC: pc, Data: d}
+}
+
+// c12ModBuild: the same questions over a Modules.tla workspace (table variables and member names).
+func c12ModBuild(id int, raw json.RawMessage) *Job {
+	var tc modCase
+	if json.Unmarshal(raw, &tc) != nil || len(tc.Files) == 0 {
+		return nil
+	}
+	return c12JobFor(id, modRender(&tc, modOneLine(raw, scSeed)), nil)
 }
 
 func locsToPos(ls []lspLoc) []tpos {
@@ -233,8 +248,10 @@ func checkC12(c *Ctx) {
 				}
 				if surveyMode {
 					k := ""
-					if oc != nil {
+					if oc != nil && d.tc != nil {
 						k = d.tc.Items[oc.Item].K + "/" + oc.Slot + "/" + oc.Role
+					} else if oc != nil {
+						k = "modules/" + oc.Slot + "/" + oc.Role + "/" + oc.Kind
 					}
 					sv.add(fmt.Sprintf("%v %s", b.Rel, k), desc)
 					continue
@@ -262,6 +279,7 @@ func checkC12(c *Ctx) {
 			return
 		}
 		t := c12Table{ID: j.PC.ID}
+		toks := modTokens(d.r)
 		for k := range d.r.Occ {
 			o := &d.r.Occ[k]
 			st := d.step[k]
@@ -269,6 +287,20 @@ func checkC12(c *Ctx) {
 			dl, _ := projLocs(res.Root, res.Steps[st[0]].Reply)
 			row.Def = locsToPos(dl)
 			row.HasDef = len(dl) > 0
+			if o.Role == "mdef" || o.Role == "muse" {
+				// a member without definition: go-to-definition falls back to the table it is read from. That answer is
+				// not a declaration of the member (it designates an identifier spelled differently), so for the relations
+				// the member has no declaration.
+				var own []lspLoc
+				for _, l := range dl {
+					if toks[fmt.Sprintf("%s:%d:%d", l.File, l.SL, l.SC)] == o.Name {
+						own = append(own, l)
+					}
+				}
+				dl = own
+				row.Def = locsToPos(dl)
+				row.HasDef = len(dl) > 0
+			}
 			if len(dl) == 1 {
 				if do := d.r.occAt(dl[0].File, dl[0].SL, dl[0].SC); do != nil {
 					row.DefKnown = true
@@ -320,7 +352,13 @@ func checkC12(c *Ctx) {
 	scKinds = `{"local","local2","use","assign","assign2","do","while","if","repeat","fornum","forin","lfunc","lefunc","gfunc","meth","file","ret","require"}`
 	scCoreKinds = `{"local","use","assign","assign2","do","repeat","fornum","lfunc","lefunc","gfunc","ret"}`
 	c.Rep.Assumptions = append(c.Rep.Assumptions, "generated domain as in C06 (Scope.tla Avoid = {hide, selfw, gshallow})")
-	scopeRuns(c, p, c12Build, judge)
+	if os.Getenv("VERIF_ONLY") != "modules" { // (development aid: survey one family at a time)
+		scopeRuns(c, p, c12Build, judge)
+		flush()
+	}
+	// the member dimension: Modules.tla workspaces (tables, member functions and fields, require/return)
+	modOneGlobal = "TRUE"
+	modulesRuns(c, p, c12ModBuild, judge)
 	flush()
 	_ = okAll
 	c.poolStats(p)
